@@ -3,6 +3,8 @@ import MlodaVerif.Lemmas.OptionsInv
 import MlodaVerif.Lemmas.OptionsMerge
 import MlodaVerif.Lemmas.OptionsIdent
 import MlodaVerif.Lemmas.OptionsGroup
+import MlodaVerif.Lemmas.OptionsLevels
+import MlodaVerif.Model.OptSpec
 /-! # C15 — group options split computations, context never does; identities are consistent
 
 Models: `Model/PyVal.lean` (Python values, `==`, `_make_hashable`), `Model/Options.lean` (`Options`, validators,
@@ -16,9 +18,6 @@ injectivity; where a statement needs it, it is an explicit hypothesis and the ex
 open PyVal (pyEq pyNe mh wf hashable)
 open PyDict (keys)
 open OptIdent OptInv
-
-/-- the only law of the built-in `hash`: equal values hash equal -/
-def C15.Respects {K : Type} (H : PyVal → K) : Prop := ∀ v w, pyEq v w = true → H v = H w
 
 /-! ## 1. `_make_hashable` and the value level -/
 
@@ -281,32 +280,7 @@ section grouping
 open OptGroup
 variable {K : Type} [DecidableEq K]
 
-def C15.isTyped (f : FeatureId) : Bool := f.dtype.isSome
-/-- `has_similarity_properties()` / `base_similarity_properties()` under the hash function `H` -/
-def C15.simKey (H : PyVal → K) (f : FeatureId) : K := H f.simVal
-def C15.baseKey (H : PyVal → K) (f : FeatureId) : K := H f.baseVal
-
-/-- group options and framework agree -/
-def C15.AgreeBase (f g : FeatureId) : Prop :=
-  f.options.eq g.options = true ∧ pyEq (cfwVal f.cfw) (cfwVal g.cfw) = true
-/-- declared types agree; an undeclared type agrees with any -/
-def C15.Compat (f g : FeatureId) : Prop :=
-  match f.dtype, g.dtype with
-  | some a, some b => a = b
-  | _, _ => True
-
-/-- the hash keys of the features present identify their option sets (hash-injectivity on what is there) -/
-structure C15.HashInj (H : PyVal → K) (fs : List FeatureId) : Prop where
-  base : ∀ f ∈ fs, ∀ g ∈ fs, H f.baseVal = H g.baseVal → C15.AgreeBase f g
-  sim : ∀ f ∈ fs, ∀ g ∈ fs, C15.isTyped f = true → C15.isTyped g = true → H f.simVal = H g.simVal →
-          C15.AgreeBase f g ∧ f.dtype = g.dtype
-  cross : ∀ f ∈ fs, ∀ g ∈ fs, C15.isTyped f = true → C15.isTyped g = false → H f.simVal ≠ H g.baseVal
-
-/-- at most one declared type per (group options, framework) among the features present -/
-def C15.UniqueTypedPerBase (fs : List FeatureId) : Prop :=
-  ∀ f ∈ fs, ∀ g ∈ fs, C15.isTyped f = true → C15.isTyped g = true → C15.AgreeBase f g → f.dtype = g.dtype
-
-theorem C15.baseKey_of_agree (H : PyVal → K) (hH : C15.Respects H) (f g : FeatureId)
+theorem C15.base_key_of_agree (H : PyVal → K) (hH : C15.Respects H) (f g : FeatureId)
     (hf : wf (.dict f.options.group) = true) (hg : wf (.dict g.options.group) = true) (h : C15.AgreeBase f g) :
     H f.baseVal = H g.baseVal := by
   apply hH
@@ -342,7 +316,7 @@ theorem C15.grouping_iff_partial (H : PyVal → K) (hH : C15.Respects H)
   have hnc : NoColl C15.isTyped (C15.simKey H) (C15.baseKey H) fs := by
     refine ⟨?_, ?_, ?_⟩
     · intro f hf g hg tf tg hs
-      exact C15.baseKey_of_agree H hH f g (hwf f hf) (hwf g hg) (hinj.sim f hf g hg tf tg hs).1
+      exact C15.base_key_of_agree H hH f g (hwf f hf) (hwf g hg) (hinj.sim f hf g hg tf tg hs).1
     · intro f hf g hg tf tg hb
       have ha := hinj.base f hf g hg hb
       have ht := huniq f hf g hg tf tg ha
@@ -375,7 +349,7 @@ theorem C15.grouping_iff_partial (H : PyVal → K) (hH : C15.Respects H)
         have := huniq f hf g hg (by simp [C15.isTyped, hfd]) (by simp [C15.isTyped, hgd]) ha
         rw [hfd, hgd] at this; cases this; rfl
   · intro ⟨ha, _⟩
-    exact C15.baseKey_of_agree H hH f g (hwf f hf) (hwf g hg) ha
+    exact C15.base_key_of_agree H hH f g (hwf f hf) (hwf g hg) ha
 
 /-- **context never splits**: under the hypotheses of `grouping_iff_partial`, two features that differ only in their
 context options (and anything else `AgreeBase`/`Compat` do not read) are in one group -/
@@ -394,6 +368,20 @@ theorem C15.context_never_splits (H : PyVal → K) (hH : C15.Respects H)
     rw [← hgroup, ← hcfw]; exact hrefl
   · unfold C15.Compat; rw [← hdt]; cases f.dtype <;> simp
 
+/-- **context never splits, unconditionally for declared types**: for EVERY hash function (collisions allowed), every
+`next(iter(group))` choice and every iteration order, two features with the same declared type whose group options are
+`==` and whose frameworks are `==` — whatever their context options — are in one group -/
+theorem C15.context_never_splits_typed (H : PyVal → K) (hH : C15.Respects H)
+    (pick : List FeatureId → Option FeatureId) (fs : List FeatureId) (f g : FeatureId) (hf : f ∈ fs) (hg : g ∈ fs)
+    (hwf : wf (.dict f.options.group) = true) (hwg : wf (.dict g.options.group) = true)
+    (t : Nat) (tf : f.dtype = some t) (tg : g.dtype = some t) (ha : C15.AgreeBase f g) :
+    SameGroup (groupBy C15.isTyped (C15.simKey H) (C15.baseKey H) pick fs) f g := by
+  apply groupBy_typed_same_key C15.isTyped (C15.simKey H) (C15.baseKey H) pick fs f g hf hg
+    (by simp [C15.isTyped, tf]) (by simp [C15.isTyped, tg])
+  apply hH
+  have e := options_coherent f.options g.options hwf hwg ha.1
+  simp [FeatureId.simVal, tf, tg, pyEq, PyVal.eqList, e, ha.2]
+
 /-- two undeclared-type features with equal base keys always end in one group, whatever `pick` does -/
 theorem C15.two_untyped_equal_key_share (sim base : FeatureId → K) (pick : List FeatureId → Option FeatureId)
     (a b : FeatureId) (ha : C15.isTyped a = false) (hb : C15.isTyped b = false) (hk : base a = base b) :
@@ -410,12 +398,6 @@ theorem C15.two_untyped_equal_key_share (sim base : FeatureId → K) (pick : Lis
       exact ⟨_, List.mem_singleton.mpr rfl, by simp, by simp⟩
     · simp only [if_neg hx, findGroup, addTo, hk, if_true]
       exact ⟨_, List.mem_singleton.mpr rfl, by simp, by simp⟩
-
-/-- hash of a tuple is a function of the hashes of its elements (true of CPython's tuple hash) -/
-def C15.TupleCong (H : PyVal → K) : Prop := ∀ l l' : List PyVal, l.map H = l'.map H → H (.tuple l) = H (.tuple l')
-
-def C15.featX (v : PyVal) : FeatureId :=
-  { name := "a", options := ⟨[("x", v)], [], []⟩, domain := none, cfw := none, dtype := none, child := none }
 
 /-- **collision witness 1** (`hash(-1) == hash(-2)` in CPython): for every hash function with that collision whose
 tuple hash is a function of the element hashes, `Feature('a', {'x': -1})` and `Feature('b', {'x': -2})` — group options
@@ -463,3 +445,41 @@ example :
       (fun e => e.2.map (·.name)) = [["t", "v"], ["u"]] := by decide
 
 end grouping
+
+/-! ## 6. dependency levels inside one group ("… and neither depends on the other") -/
+
+open OptGroup in
+/-- the levels of `_split_features_by_dependency_levels` cover the group's features exactly once — cyclic or not -/
+theorem C15.levels_cover (ids : List Nat) (deps : Nat → List Nat) :
+    (splitLevels ids deps).flatten.Perm ids := by
+  unfold splitLevels
+  simp only
+  split
+  · simp
+  · exact levelLoop_cover _ ids.length ids [] (Nat.le_refl _)
+
+open OptGroup in
+/-- for an acyclic dependency relation (a rank function decreasing along dependencies): no feature of a level depends
+on a feature of the same level, i.e. features computed in one call never depend on each other -/
+theorem C15.levels_independent (ids : List Nat) (deps : Nat → List Nat) (rank : Nat → Nat)
+    (hacyc : ∀ u ∈ ids, ∀ d ∈ deps u, d ∈ ids → rank d < rank u) :
+    ∀ L ∈ splitLevels ids deps, ∀ u ∈ L, ∀ v ∈ L, u ∈ ids → v ∈ ids → v ∉ deps u := by
+  intro L hL u hu v hv hui hvi hdep
+  have hintra : v ∈ (deps u).filter (fun d => ids.contains d) :=
+    List.mem_filter.mpr ⟨hdep, List.contains_iff_mem.mpr hvi⟩
+  unfold splitLevels at hL
+  simp only at hL
+  split at hL
+  · rename_i hall
+    rw [List.all_eq_true] at hall
+    have := hall u hui
+    simp only [List.isEmpty_iff] at this
+    rw [this] at hintra; cases hintra
+  · have hw := levelLoop_wellLayered (fun u => (deps u).filter (fun d => ids.contains d)) ids rank
+      (fun u d hd => List.contains_iff_mem.mp (List.mem_filter.mp hd).2)
+      (fun u hu d hd => hacyc u hu d (List.mem_filter.mp hd).1 (List.contains_iff_mem.mp (List.mem_filter.mp hd).2))
+      ids.length ids [] (fun x hx => Or.inr hx) (fun x hx => hx) (fun x hx => by cases hx)
+    exact wellLayered_independent _ _ _ hw L hL u hu v hv hintra
+
+example : OptGroup.splitLevels [1, 2, 3, 4] (fun u => if u = 2 then [1] else if u = 4 then [2, 9] else [])
+    = [[1, 3], [2], [4]] := by decide
